@@ -77,6 +77,7 @@ class Interp:
         self.known_scanned = len(measured.Unit._known)
         self.restarted = 0
         self.carry = None
+        self.states = set()     # distinct unit normal forms produced (a measure of states reached)
         self.creators = {}      # id(unit) -> qualname of the library function that interned it
         self._inj = None
         self._unit_new_code = measured.Unit.__new__.__code__
@@ -263,6 +264,7 @@ class Interp:
             "probes": self.probes,
             "faults_fired": self.faults_fired,
             "log": self.log if self.opts.get("want_log") else None,
+            "state_hashes": sorted({__import__("zlib").crc32(x.encode()) for x in self.states}),
         }
 
     def exec_op(self, op):
@@ -319,6 +321,11 @@ class Interp:
             self.mvals[op["id"]] = mval
         if exc is None:
             rec.update(self.describe(out_kind, value, mval))
+            nf_ = rec.get("nf")
+            if nf_:
+                for x in (nf_ if isinstance(nf_, list) else [nf_]):
+                    if x:
+                        self.states.add(x)
             for k, v in info.items():
                 if not k.startswith("_"):
                     rec[k] = v
